@@ -29,7 +29,44 @@ NOT_APPLICABLE = {
 for _p in ["C01", "C03", "C04", "C05", "C06", "C07", "C08", "C09", "C11", "C12", "C13", "C14", "C15", "C16", "C18", "C19"]:
     NOT_APPLICABLE.setdefault(_p, _NA_UNSTARTED)
 
+def _m(text, ref, note, tech):
+    return {"text": text, "design_ref": ref, "note": note, "technique": tech}
+
+
 CHECKS = {
+    "C13": _m("Bounded model checking of the two classification kernels of import handling: the plain-CSS import predicate "
+              "agrees with the documented rule on every ASCII URL of 5-9 bytes, and the syntax chosen from a file extension is "
+              "Sass/CSS exactly for .sass/.css in any letter case.",
+              "DESIGN.md section 4, C13",
+              "Only the classification kernels are decided; the candidate search order and Fs confinement of find_import are NOT "
+              "covered (PathBuf/format! machinery does not finish under CBMC). Trusted: Kani/CBMC.",
+              "bounded model checking (Kani/CBMC) of is_plain_css_import and InputSyntax::for_path"),
+    "C15": _m("Bounded model checking with full-width symbolic doubles: the clamping constructors and opacity functions keep "
+              "channels integer-valued in [0,255] and alpha in [0,1] for every f64 input incl. NaN/inf; the 3-digit hex decision "
+              "is exact over all 2^24 colours.",
+              "DESIGN.md section 4, C15",
+              "Colour-space conversions, named colours and the HSL-based functions are outside the claim. Trusted: Kani/CBMC's "
+              "IEEE-754 encoding of min/max/round/compare.",
+              "bounded model checking (Kani/CBMC, bit-precise floats) of Color constructors and hex decision"),
+    "C16": _m("Bounded model checking of the parenthesisation decisions used when a calculation is printed: whenever the rule "
+              "omits parentheses, the flat text read with CSS precedence denotes the same rational value as the operation tree, "
+              "for all operator pairs and all integer leaves in [-4,4].",
+              "DESIGN.md section 4, C16",
+              "Decides the decision functions only, not the byte emission nor min/max/clamp simplification. Trusted: Kani/CBMC, "
+              "the 30-line calc reader in kani/src/c16.rs.",
+              "bounded model checking (Kani/CBMC) of parenthesize_calculation_rhs / precedence against exact rational evaluation"),
+    "C18": _m("Bounded model checking of the character-level lexer: CR, CRLF and FF lex as exactly one newline token, every other "
+              "code point as itself, for every ASCII source of 3-4 bytes and every code point.",
+              "DESIGN.md section 4, C18",
+              "Only newline normalisation is decided; agreement of the three statement parsers is outside. Trusted: Kani/CBMC.",
+              "bounded model checking (Kani/CBMC) of TokenLexer::next against a reference tokeniser"),
+    "C19": _m("Bounded model checking of span arithmetic: every span the lexer hands to error construction lies inside the file "
+              "(low <= high, within bounds) for any cursor/start over arbitrary code points; token positions stay inside their "
+              "token's bytes.",
+              "DESIGN.md section 4, C19",
+              "Delivery counts of @warn/@debug, quiet, and error rendering are outside. Trusted: Kani/CBMC, the 8-byte layout of "
+              "codemap::Span (asserted).",
+              "bounded model checking (Kani/CBMC) of Lexer span computation and Span::subspan assertions"),
     "C01": {
         "text": "Bounded model checking of the real trivia readers (both syntaxes' comment/whitespace skippers): for every token "
                 "buffer inside the bound they terminate (unwinding assertions), do not panic, keep the cursor inside the buffer "
